@@ -13,8 +13,8 @@ type gatherTerm struct {
 	Idx      ssa.Value
 	ShiftVal ssa.Value // the shift amount when it is not a constant (a loop counter)
 	Shift    int64
-	Ins   ssa.Instruction
-	Cont  ssa.Value
+	Ins      ssa.Instruction
+	Cont     ssa.Value
 }
 
 // gatherTerms finds byte loads of container role `role` widened to uint64 and shifted left by a constant.
@@ -473,17 +473,51 @@ func runC11(c *Ctx, w *World, r *Report) {
 		fn := fns[n]
 		fa := w.FA(fn)
 		bad := ""
-		var pc *ssa.Call
+		var pc, pre *ssa.Call
+		var pcs []*ssa.Call
 		eachInstr(fn, func(ins ssa.Instruction) {
 			if call, ok := ins.(*ssa.Call); ok && call.Common().StaticCallee() == fns["bmtree.PathOf"] {
 				pc = call
+				pcs = append(pcs, call)
 			}
 		})
+		// peeled form: the first key is handled before the loop (its path is always kept and is the first predecessor),
+		// the loop runs over keys[1:]
+		if len(pcs) == 2 {
+			in0, in1 := innermostLoop(pcs[0].Block()) != nil, innermostLoop(pcs[1].Block()) != nil
+			if in0 != in1 {
+				if in0 {
+					pc, pre = pcs[0], pcs[1]
+				} else {
+					pc, pre = pcs[1], pcs[0]
+				}
+			}
+		}
 		if pc == nil {
 			bad = "PathsOf does not call PathOf"
 		} else {
 			a := pc.Common().Args
-			role, ok, why := fullRangeElem(fa, a[0])
+			role, ok, why := "", false, ""
+			if pre != nil {
+				var low int64
+				role, low, ok, why = fullRangeElemFrom(fa, a[0])
+				if ok && low != 1 {
+					ok, why = false, fmt.Sprintf("the first key is handled before the loop but the loop starts at key %d", low)
+				}
+				pa := pre.Common().Args
+				c0, i0, isEl := asElemLoad(pa[0])
+				if k, isK := constInt64(i0); !isEl || !isK || k != 0 || c0 != ssa.Value(fn.Params[0]) {
+					bad = "the path computed before the loop is not that of keys[0]"
+				}
+				if pa[1] != ssa.Value(fn.Params[1]) || pa[2] != ssa.Value(fn.Params[2]) {
+					bad = "PathOf is not given (frombit, height)"
+				}
+				if bd := fa.BoundsAt(pre.Block(), linAtom("call:builtin len(p0)")); !(bd.HasLo && bd.Lo >= 1) {
+					bad = "keys[0] is read before the loop without the key list being known non-empty"
+				}
+			} else {
+				role, ok, why = fullRangeElem(fa, a[0])
+			}
 			if !ok || role != "keys" {
 				bad = "PathOf is not applied to every key: " + why
 			}
@@ -502,6 +536,13 @@ func runC11(c *Ctx, w *World, r *Report) {
 					return
 				}
 				napp++
+				if pre != nil && len(vals) == 1 && vals[0] == ssa.Value(pre) {
+					// the first path: appended whenever it was computed
+					if innermostLoop(call.Block()) != nil || !pre.Block().Dominates(call.Block()) || len(fa.Conds(call.Block())) != len(fa.Conds(pre.Block())) {
+						bad = "the path of the first key is not appended unconditionally"
+					}
+					return
+				}
 				if len(vals) != 1 || vals[0] != ssa.Value(pc) {
 					bad = "the value appended is not the path of the current key"
 				}
@@ -534,6 +575,8 @@ func runC11(c *Ctx, w *World, r *Report) {
 								for _, e := range ph.Edges {
 									if e == ssa.Value(pc) {
 										nb++
+									} else if pre != nil && e == ssa.Value(pre) {
+										// the predecessor of keys[1] is keys[0]
 									} else if _, isC := e.(*ssa.Const); !isC {
 										okPrev = false // kept unchanged on some iteration
 									}
@@ -554,8 +597,12 @@ func runC11(c *Ctx, w *World, r *Report) {
 					}
 				}
 			})
-			if napp != 1 && bad == "" {
-				bad = fmt.Sprintf("expected one append site, found %d", napp)
+			wantApp := 1
+			if pre != nil {
+				wantApp = 2
+			}
+			if napp != wantApp && bad == "" {
+				bad = fmt.Sprintf("expected %d append site(s), found %d", wantApp, napp)
 			}
 			// R-SENTINEL: the first key has no predecessor, so the initial "previous path" must not be able
 			// to equal a real path (or the first iteration must bypass the comparison)
